@@ -168,6 +168,17 @@ def enumerate_cases(tier: str):
         doc = json.loads(text)
         doc["1"]["children"]["1"]["values"] = {"49": value, "x": "1"}
         yield {"kind": "content", "origin": "mutated", "data": json.dumps(doc)}
+    rec = {"node_id": 1, "node_type": 17, "protocol_version": "2.0"}
+    for count in (255, 256, 257, 300, 1000):
+        yield {"kind": "content", "origin": "many-entries", "data": json.dumps({str(i): dict(rec, node_id=i % 256) for i in range(count)})}
+        yield {"kind": "content", "origin": "many-entries", "data": json.dumps({str(i): 5 for i in range(count)})}
+        yield {"kind": "content", "origin": "many-entries", "data": json.dumps({f"k{i}": dict(rec, node_id=7) for i in range(count)})}
+    for extra in ({"sensor_id": 1}, {"sensor_id": 2}, {"type": 17}, {"type": None}, {"node_id": 1, "sensor_id": 1, "type": 18, "node_type": 17}):
+        for prefill in (False, True):
+            yield {"kind": "content", "origin": "both-spellings", "data": json.dumps({"1": dict(rec, **extra)}), "prefill": prefill}
+    for extra in ({"id": 1}, {"id": 9}, {"type": 6}, {"id": 1, "type": 6}):
+        child = dict({"child_id": 1, "child_type": 6, "description": "", "values": {"0": "1"}}, **extra)
+        yield {"kind": "content", "origin": "both-spellings", "data": json.dumps({"1": dict(rec, children={"1": child})})}
     for ckey, cid in (("7", 1), ("1", 7), ("x", 1), ("-1", 1), ("1", 300), ("1", -1), ("01", 1)):
         for layout in ("native", "legacy"):
             for values in ({"0": "1"}, {}):
